@@ -367,6 +367,12 @@ class ConnectHelper(Loggable):
         push_infos = {k: v for k, v in push_infos.items() if self.out_infos[k] is None}
         push_data = {k: v for k, v in push_data.items() if not self.data_pushed[k]}
 
+        if not self._cache:
+            # nothing is kept from previous calls: rule-based infos are generated anew
+            self._in_info_cache = {}
+            self._out_info_cache = {}
+            self._out_data_cache = {}
+
         # Try to generate infos from transfer rules
         with ErrorLogger(self.logger):
             exchange_infos.update(self._apply_in_info_rules())
